@@ -408,7 +408,7 @@ func main() {
 			setExit(2)
 			continue
 		}
-		opt := exec.Options{Workers: *workers, Trace: *trace, MaxPaths: *maxPaths, SolverLogDir: *slog, SolverKind: *solverKind, MaxModels: 24}
+		opt := exec.Options{Workers: *workers, Trace: *trace, MaxPaths: *maxPaths, SolverLogDir: *slog, SolverKind: *solverKind, MaxModels: 24, Progress: os.Getenv("VERIF_PROGRESS") != ""}
 		if *tier == "thorough" {
 			opt.TimeoutMS = 120000
 			opt.MaxModels = 96
